@@ -157,6 +157,12 @@ static void check_rule(Rng& rng, unsigned n, double a, double b, bool reversed)
 		};
 		Trace tr;
 		double a1 = reversed ? b : a, b1 = reversed ? a : b;
+		// call history: the same order on an unrelated interval (far from the origin and narrow, or wide) right before the observed call
+		if(rng.coin(0.5))
+		{
+			double fa = rng.coin() ? rng.sign() * rng.loguni(1e3, 1e9) : rng.uni(-5, 5), fw = rng.coin() ? rng.loguni(1e-3, 1.0) : rng.loguni(1.0, 1e3);
+			(void) Integrate_Gauss_Legendre([](double x) { return x; }, fa, fa + fw, n);
+		}
 		double v1 = Integrate_Gauss_Legendre(traced(f, &tr), a1, b1, n);
 		require("integrand-evaluated-only-at-the-n-nodes", tr.n == n && tr.inside(a, b), [&] { return pj().i("evaluations", (long long) tr.n).d("xmin", tr.xmin).d("xmax", tr.xmax); });
 		double v2 = Integrate_Gauss_Legendre(f, rw);
